@@ -26,6 +26,7 @@ import (
 // worldTracer remembers, per account, every storage key an SSTORE addressed
 type worldTracer struct {
 	keys map[common.Address]map[common.Hash]bool
+	oog  bool // some frame ran out of gas (or could not pay for memory): what follows depends on how gas is metered
 }
 
 func (t *worldTracer) note(a common.Address, k common.Hash) {
@@ -38,17 +39,24 @@ func (t *worldTracer) CaptureStart(from common.Address, to common.Address, call 
 	return nil
 }
 func (t *worldTracer) CaptureState(env *vm.EVM, pc uint64, op vm.OpCode, gas, cost uint64, memory *vm.Memory, stack *vm.Stack, contract *vm.Contract, depth int, err error) error {
+	if err == vm.ErrOutOfGas || err == vm.ErrCodeStoreOutOfGas {
+		t.oog = true
+	}
 	if op == vm.SSTORE && len(stack.Data()) >= 2 {
 		t.note(contract.Address(), common.BigToHash(stack.Back(0)))
 	}
 	return nil
 }
 func (t *worldTracer) CaptureFault(env *vm.EVM, pc uint64, op vm.OpCode, gas, cost uint64, memory *vm.Memory, stack *vm.Stack, contract *vm.Contract, depth int, err error) error {
+	if err == vm.ErrOutOfGas || err == vm.ErrCodeStoreOutOfGas {
+		t.oog = true
+	}
 	return nil
 }
 func (t *worldTracer) CaptureEnd(output []byte, gasUsed uint64, d time.Duration, err error) error { return nil }
 
 type worldObs struct {
+	innerOog bool
 	cls   int
 	ret   []byte
 	accs  []string
@@ -113,8 +121,32 @@ func runWorldInTree(q *evmReq) (o worldObs) {
 		}
 	}
 	o.ret = ret
+	o.innerOog = tr.oog
+	root, _ := st.Commit(true)
+	o.root = hex.EncodeToString(root[:])
+	// every account of the final state (created ones included), and the universe of the case
+	seen := map[common.Address]bool{}
+	var addrs []common.Address
 	for _, as := range worldUniverse {
-		addr := common.HexToAddress(as)
+		a := common.HexToAddress(as)
+		if !seen[a] {
+			seen[a] = true
+			addrs = append(addrs, a)
+		}
+	}
+	var extra []string
+	for as := range st.RawDump().Accounts {
+		extra = append(extra, as)
+	}
+	sort.Strings(extra)
+	for _, as := range extra {
+		a := common.HexToAddress(as)
+		if !seen[a] {
+			seen[a] = true
+			addrs = append(addrs, a)
+		}
+	}
+	for _, addr := range addrs {
 		var ks []*big.Int
 		for k := range tr.keys[addr] {
 			ks = append(ks, new(big.Int).SetBytes(k[:]))
@@ -127,7 +159,7 @@ func runWorldInTree(q *evmReq) (o worldObs) {
 				kvs = append(kvs, [2]*big.Int{k, new(big.Int).SetBytes(v[:])})
 			}
 		}
-		o.accs = append(o.accs, sxL(addr.Big().Text(16), sxU(st.GetNonce(addr)), st.GetBalance(addr).Text(16), bigsSx(kvs)))
+		o.accs = append(o.accs, sxL(addr.Big().Text(16), sxU(st.GetNonce(addr)), st.GetBalance(addr).Text(16), sxB(st.GetCode(addr)), bigsSx(kvs)))
 	}
 	for _, l := range st.Logs() {
 		ts := make([]string, len(l.Topics))
@@ -136,8 +168,6 @@ func runWorldInTree(q *evmReq) (o worldObs) {
 		}
 		o.logs = append(o.logs, sxL(l.Address.Big().Text(16), sxL(ts...), sxB(l.Data)))
 	}
-	root, _ := st.Commit(true)
-	o.root = hex.EncodeToString(root[:])
 	lb, _ := rlp.EncodeToBytes(st.Logs())
 	o.logsH = hex.EncodeToString(crypto.Keccak256(lb))
 	return o
@@ -192,16 +222,21 @@ func init() {
 					hit("evm-panic", o.panic)
 				}
 				ref, rerr := evmRes{}, ""
-				if !c.SmallGas && o.cls != 3 {
+				if o.innerOog && o.cls != 3 {
+					dist["inner-out-of-gas=model-only"]++
+				}
+				if !c.SmallGas && o.cls != 3 && !o.innerOog {
 					// the reference hands a callee 63/64 of what is left and burns it when the callee
 					// fails; the in-tree budget does not: ample gas keeps the reference on the same path
 					q2 := *q
 					q2.CallGas = 1 << 56
 					ref, rerr = runEvmRef(&q2)
 				}
-				if c.SmallGas || o.cls == 3 {
+				if c.SmallGas || o.cls == 3 || o.innerOog {
 				} else if rerr != "" {
 					hit("reference-error", rerr)
+				} else if ref.InnerOog && ref.Err != "oog" {
+					dist["reference-inner-out-of-gas=model-only"]++
 				} else if o.cls != 3 && ref.Err != "oog" && o.cls != 9 {
 					cls := map[string]int{"": 0, "revert": 1, "fail": 2}[ref.Err]
 					switch {
